@@ -43,8 +43,24 @@ class CholLinearOperator(RootLinearOperator):
                 chol = TriangularLinearOperator(chol, upper=True)
             else:
                 raise ValueError("chol must be either lower or upper triangular")
+        if upper:
+            # R^T R: keep the lower factor L = R^T, so that everything inherited from RootLinearOperator
+            # (matmul, indexing, diagonal, root decompositions) and every rebuild of this operator from its
+            # constructor arguments sees L L^T
+            chol = chol._transpose_nonbatch()
+            upper = False
         super().__init__(chol)
         self.upper = upper
+
+    def _root_solve(self, rhs):
+        # A^{-1} rhs for A = root root^T (or root^T root if self.upper)
+        if getattr(self.root, "upper", False) != self.upper:
+            # the factor has the other triangularity (e.g. the inverse of a Cholesky operator is U U^T with U upper
+            # triangular): not a form cholesky_solve can read, so use the two triangular solves
+            if self.upper:
+                return self.root.solve(self.root._transpose_nonbatch().solve(rhs))
+            return self.root._transpose_nonbatch().solve(self.root.solve(rhs))
+        return self.root._cholesky_solve(rhs, upper=self.upper)
 
     @property
     def _chol_diag(self: Float[LinearOperator, "*batch N N"]) -> Float[torch.Tensor, "... N"]:
@@ -78,7 +94,7 @@ class CholLinearOperator(RootLinearOperator):
     ]:
         if num_tridiag:
             return super()._solve(rhs, preconditioner, num_tridiag=num_tridiag)
-        return self.root._cholesky_solve(rhs, upper=self.upper)
+        return self._root_solve(rhs)
 
     @cached
     def to_dense(self: Float[LinearOperator, "*batch M N"]) -> Float[Tensor, "*batch M N"]:
@@ -95,7 +111,8 @@ class CholLinearOperator(RootLinearOperator):
         Returns the inverse of the CholLinearOperator.
         """
         Linv = self.root.inverse()  # this could be slow in some cases w/ structured lazies
-        return CholLinearOperator(TriangularLinearOperator(Linv, upper=not self.upper), upper=not self.upper)
+        # A^{-1} = Linv^T Linv, and Linv has the triangularity of the root itself
+        return CholLinearOperator(TriangularLinearOperator(Linv, upper=self.upper), upper=not self.upper)
 
     def inv_quad(
         self: Float[LinearOperator, "*batch N N"],
@@ -176,7 +193,7 @@ class CholLinearOperator(RootLinearOperator):
         is_vector = right_tensor.ndim == 1
         if is_vector:
             right_tensor = right_tensor.unsqueeze(-1)
-        res = self.root._cholesky_solve(right_tensor, upper=self.upper)
+        res = self._root_solve(right_tensor)
         if is_vector:
             res = res.squeeze(-1)
         if left_tensor is not None:
